@@ -30,7 +30,10 @@ class Block(Node):
         returns:
             self, or a list of new blocks if media queries need to be rotated
         """
-        if not self.parsed:
+        if self.parsed is False:
+            # (an evaluated block may well have no declarations of its own:
+            # an empty list must not make it look unevaluated, or its inner
+            # @media blocks are rotated out a second time)
             scope.push()
             self.name, inner = self.tokens
             if not self.name.parsed:
